@@ -855,3 +855,28 @@ Proof.
     + eapply (leb_num_r prim_ops OL). exact H0.
     + reflexivity.
 Qed.
+
+(* the default-count clause with jitter: for some fuel and number n of draws, whatever n or more
+   draws in [0,1] random.random() returns, backoff() returns a list within the jitter bounds whose
+   un-jittered value at the last position is stop *)
+Theorem binary64_default_count_jitter : forall start stop factor j take,
+  let p := mkP ApiList start stop CNone factor j take in
+  must_raise prim_ops p = false -> PrimFloat.ltb PrimFloat.one factor = true ->
+  PrimFloat.eqb start PrimFloat.zero = true \/ PrimFloat.leb minnorm start = true ->
+  exists fuel n, forall draws, draws_ok prim_ops draws -> (n <= length draws)%nat ->
+    let o := run prim_ops p fuel draws in
+    o_end o = EStop /\ values_ok prim_ops p (o_vals o) = true /\
+    last_is prim_ops stop (if jitter_off prim_ops j then o_vals o
+                           else ideal prim_ops stop factor start (length (o_vals o))) = true.
+Proof.
+  intros start stop factor j take p M Lf Hs.
+  destruct (must_raise_false_parts prim_ops p M) as [V _]. cbn [p p_start p_stop p_factor] in V.
+  destruct (valid_parts prim_ops start stop factor V) as (H0 & _).
+  destruct (default_count_terminates start stop factor H0) as [fuel Hfuel].
+  exists fuel, (default_len prim_ops fuel start stop factor). intros draws Hd Hn.
+  pose proof (run_list_default_not_fuel_draws prim_ops prim_order_laws
+                start stop factor j take fuel draws V (Hfuel 1%Z) Hn) as NF.
+  exact (default_count_last_is_stop prim_ops prim_order_laws prim_grow_laws prim_jitter_laws
+           start stop factor j take fuel draws Hd M Lf
+           (no_stall_zero_or_normal start stop factor V Lf Hs fuel) NF).
+Qed.
